@@ -126,6 +126,11 @@ func (c *VCtx) load(fr *Frame, st *State, p Val, pos token.Pos) Val {
 		switch l.Kind {
 		case "field", "cell":
 			c.checkAccess(fr, st, l, false, pos)
+			if l.Kind == "cell" && st.cells != nil {
+				if known, ok := st.cells[l.Base.S]; ok {
+					return known
+				}
+			}
 			h := c.heap(st, l.Heap, ArrSort(SRef, l.Sort))
 			v = Select(h, l.Base)
 		case "elem":
@@ -162,6 +167,14 @@ func (c *VCtx) store(fr *Frame, st *State, p Val, v Val, pos token.Pos) {
 			hs := ArrSort(SRef, l.Sort)
 			h := c.heap(st, l.Heap, hs)
 			c.setHeap(st, l.Heap, Store(h, l.Base, tv))
+			if l.Kind == "cell" && st.cells != nil {
+				if strings.HasPrefix(l.Base.S, "cell!") {
+					st.cells[l.Base.S] = c.typed(v, l.GT)
+				} else {
+					// a store through an unknown pointer may alias any cell
+					st.cells = map[string]Val{}
+				}
+			}
 		case "elem":
 			hs := ArrSort(SRef, ArrSort(SInt, l.Sort))
 			h := c.heap(st, l.Heap, hs)
@@ -571,6 +584,7 @@ func (c *VCtx) loopHead(fr *Frame, li *loopInfo, st *State, phis []*ssa.Phi) {
 				for _, l := range cellTargets {
 					if l.Heap == h {
 						cur = Store(cur, l.Base, c.fresh("cv", vs))
+						delete(st.cells, l.Base.S)
 					}
 				}
 				st.heaps[h] = c.name("h", cur)
